@@ -7,6 +7,7 @@ package dsl
 // yaml.v3 hands UnmarshalYAML a node tree that the callee never mutates.
 //@ immutable gopkg.in/yaml.v3.Node.Kind, gopkg.in/yaml.v3.Node.Tag, gopkg.in/yaml.v3.Node.Value, gopkg.in/yaml.v3.Node.Content
 //@ immutable gopkg.in/yaml.v3.Node.Line, gopkg.in/yaml.v3.Node.Column, gopkg.in/yaml.v3.Node.HeadComment, gopkg.in/yaml.v3.Node.Style
+//@ immutable gopkg.in/yaml.v3.Node.Alias
 //@ immutable-family E#*gopkg.in/yaml.v3.Node
 // yaml.v3 calls UnmarshalYAML with a non-nil receiver and a non-nil node.
 //@ method-pre UnmarshalYAML nonnil
@@ -15,6 +16,8 @@ package dsl
 //@ type-invariant *yaml.Node n :: n.Kind == yaml.MappingNode ==> len(n.Content) % 2 == 0
 //@ type-invariant *yaml.Node n :: n.Kind == yaml.DocumentNode || n.Kind == yaml.SequenceNode || n.Kind == yaml.MappingNode || n.Kind == yaml.ScalarNode || n.Kind == yaml.AliasNode
 //@ type-invariant *yaml.Node n :: n.Kind == yaml.ScalarNode || n.Kind == yaml.AliasNode ==> len(n.Content) == 0
+// an alias node refers to the anchored node, which is not itself an alias
+//@ type-invariant *yaml.Node n :: n.Kind == yaml.AliasNode ==> n.Alias != nil && n.Alias.Kind != yaml.AliasNode
 // a document is bounded by its file: no node has more than 2^20 children (assumption, listed in evidence)
 //@ type-invariant *yaml.Node n :: len(n.Content) <= 1048576
 //@ elems-nonnil *gopkg.in/yaml.v3.Node
@@ -101,10 +104,31 @@ package dsl
 //@   requires ast != nil
 //@   invariant 1: t != nil
 //@   ensures result != nil
+// A shorthand tail is only another spelling of the expanded form (C13): `T?` is [null, T]; `K->V` is !map {keys: K,
+// values: V}; `T*` / `T*N` is !vector {items: T} / {items: T, length: N} - a written length, zero included, makes
+// the vector fixed exactly as `length:` does; `T[..]` is !array with the written dimensions in the written order.
+//@ spec func tailGT(r Type) *GeneralizedType = r.(*GeneralizedType)
 //@ func applyTypeTail
 //@   property C10
+//@   property C13
 //@   requires inner != nil
 //@   ensures result != nil
+//@   ensures result_is_generalized: typeof(result) == *GeneralizedType
+//@   ensures optional_tail_a: tail.Optional ==> tailGT(result).Dimensionality == nil
+//@   ensures optional_tail_b: tail.Optional ==> len(tailGT(result).Cases) == 2
+//@   ensures optional_tail_c: tail.Optional ==> tailGT(result).Cases[0].Type == nil
+//@   ensures optional_tail_d: tail.Optional ==> tailGT(result).Cases[1].Type == inner
+//@   ensures map_tail_keys_are_the_inner_type: !tail.Optional && tail.MapValue != nil ==> typeof(tailGT(result).Dimensionality) == *Map && tailGT(result).Dimensionality.(*Map).KeyType == inner && len(tailGT(result).Cases) == 1
+//@   ensures vector_tail_wraps_inner: !tail.Optional && tail.MapValue == nil && tail.Vector != nil ==> typeof(tailGT(result).Dimensionality) == *Vector && len(tailGT(result).Cases) == 1 && tailGT(result).Cases[0].Type == inner
+//@   ensures vector_tail_without_length_is_dynamic: !tail.Optional && tail.MapValue == nil && tail.Vector != nil && tail.Vector.Length == nil ==> tailGT(result).Dimensionality.(*Vector).Length == nil
+//@   ensures vector_tail_keeps_the_written_length: !tail.Optional && tail.MapValue == nil && tail.Vector != nil && tail.Vector.Length != nil ==> tailGT(result).Dimensionality.(*Vector).Length != nil && *tailGT(result).Dimensionality.(*Vector).Length == *tail.Vector.Length
+//@   ensures array_tail_wraps_inner: !tail.Optional && tail.MapValue == nil && tail.Vector == nil && tail.Array != nil ==> typeof(tailGT(result).Dimensionality) == *Array && len(tailGT(result).Cases) == 1 && tailGT(result).Cases[0].Type == inner
+//@   ensures array_tail_without_dimensions_is_dynamic: !tail.Optional && tail.MapValue == nil && tail.Vector == nil && tail.Array != nil && len(tail.Array.Dimensions) == 0 ==> tailGT(result).Dimensionality.(*Array).Dimensions == nil
+//@   ensures array_tail_keeps_the_written_dimensions: !tail.Optional && tail.MapValue == nil && tail.Vector == nil && tail.Array != nil && len(tail.Array.Dimensions) > 0 ==> tailGT(result).Dimensionality.(*Array).Dimensions != nil && len(*tailGT(result).Dimensionality.(*Array).Dimensions) == len(tail.Array.Dimensions) && (forall k in 0..len(tail.Array.Dimensions) :: ((*tailGT(result).Dimensionality.(*Array).Dimensions)[k] != nil && (*tailGT(result).Dimensionality.(*Array).Dimensions)[k].Length == tail.Array.Dimensions[k].Length && (*tailGT(result).Dimensionality.(*Array).Dimensions)[k].Name == tail.Array.Dimensions[k].Name))
+//@   invariant 0: len(dims) == rangeindex + 1
+//@   invariant 0: (forall k in 0..len(dims) :: (dims[k] != nil && alive(dims[k])))
+//@   invariant 0: (forall k in 0..len(dims) :: (dims[k].Length == tail.Array.Dimensions[k].Length))
+//@   invariant 0: (forall k in 0..len(dims) :: (dims[k].Name == tail.Array.Dimensions[k].Name))
 //@ func UnmarshalEnumValues
 //@   entry
 //@   property C10
@@ -469,6 +493,9 @@ package dsl
 //@   invariant 0: nullLengthCount >= 0 && notNullLengthCount >= 0
 //@   invariant 0: (nullLengthCount > 0) <==> (exists k in 0..rangeindex+1 :: (*t.Dimensions)[k].Length == nil)
 //@   invariant 0: (notNullLengthCount > 0) <==> (exists k in 0..rangeindex+1 :: (*t.Dimensions)[k].Length != nil)
+// an array declared with zero dimensions (`dimensions: 0`, `dimensions: []`) has no generated representation (the
+// emitted shape list would be empty: not valid C++ or Python): it is an error
+//@   ensures zero_dimensions_is_an_error: typeof(node) == *Array && node.(*Array) != nil && arrDimsOf(node) != nil && len(*arrDimsOf(node)) == 0 ==> called("validation.(*ErrorSink).Add")
 //@   ensures mixed_lengths_are_an_error: typeof(node) == *Array && node.(*Array) != nil && arrDimsOf(node) != nil && (exists a in 0..len(*arrDimsOf(node)) :: (*arrDimsOf(node))[a].Length == nil) && (exists b in 0..len(*arrDimsOf(node)) :: (*arrDimsOf(node))[b].Length != nil) ==> called("validation.(*ErrorSink).Add")
 
 // A stream is only legal directly as a protocol step: the nearest enclosing definition must be a protocol.
@@ -622,7 +649,15 @@ package dsl
 // (`Foo<[int, int]>`, `!generic {name: Foo, args: [[int, int]]}`): the pass descends below every node.
 //@ func validateUnionCases$1
 //@   property C09
+//@   requires errorSink != nil
 //@   ensures always_descends: called("dsl.(VisitorWithContext[bool]).VisitChildren")
+// "unions may not immediately contain other unions" is about a case that is itself a union or optional. A case that is
+// a vector, array, map or stream whose element type is a union (`int?*`, `!vector {items: [null, int]}`) is not: the
+// two spellings build different trees (the expanded form keeps the element cases on the collection node itself), and
+// both must be accepted.
+//@   property C13
+//@   iteration 1: a_collection_of_unions_is_not_a_nested_union: typeof(typeCase.Type) == *GeneralizedType && typeCase.Type.(*GeneralizedType) != nil && typeCase.Type.(*GeneralizedType).Dimensionality != nil ==> len(errorSink.Errors) == old(len(errorSink.Errors))
+//@   iteration 1: a_union_case_that_is_a_union_is_an_error: typeof(typeCase.Type) == *GeneralizedType && typeCase.Type.(*GeneralizedType) != nil && typeCase.Type.(*GeneralizedType).Dimensionality == nil && len(typeCase.Type.(*GeneralizedType).Cases) > 1 ==> len(errorSink.Errors) == old(len(errorSink.Errors)) + 1
 
 // Name rules: every definition other than the one being named is descended into.
 //@ func validateTypeDefinitionNames$1
@@ -635,8 +670,14 @@ package dsl
 // every field and computed field: a badly-cased name is an error; a name already used on the record is an error;
 // names accumulate over fields and computed fields (so a computed field cannot repeat a field either)
 //@   invariant 0: forall k in 0..rangeindex+1 :: (record.Fields[k].Name in fields)
+//@   invariant 0: forall k in 0..rangeindex+1 :: (formatting.ToSnakeCase(record.Fields[k].Name) in generatedNames)
+//@   invariant 0: forall k in 0..rangeindex+1 :: (generatedNames[formatting.ToSnakeCase(record.Fields[k].Name)] in fields)
 //@   iteration 0: badly_cased_field_is_an_error: !lastResult("regexp.(*Regexp).MatchString") ==> len(errorSink.Errors) > old(len(errorSink.Errors))
 //@   iteration 0: repeated_field_name_is_an_error: old(field.Name in fields) ==> len(errorSink.Errors) > old(len(errorSink.Errors))
+// two fields that get the same identifier in generated code (all three backends snake_case field names: `fooBar` and
+// `fooBAR` both become `foo_bar`) cannot both be declared: a field whose generated name equals that of an earlier,
+// differently spelled field is an error
+//@   iteration 0: fields_with_the_same_generated_name_are_an_error: forall k in 0..rangeindex :: (formatting.ToSnakeCase(record.Fields[k].Name) == formatting.ToSnakeCase(field.Name) && record.Fields[k].Name != field.Name ==> len(errorSink.Errors) > old(len(errorSink.Errors)))
 //@   invariant 1: (forall k in 0..len(record.Fields) :: (record.Fields[k].Name in fields)) && (forall k in 0..rangeindex+1 :: (record.ComputedFields[k].Name in fields))
 //@   iteration 1: badly_cased_computed_field_is_an_error: !lastResult("regexp.(*Regexp).MatchString") ==> len(errorSink.Errors) > old(len(errorSink.Errors))
 //@   iteration 1: repeated_computed_field_name_is_an_error: old(field.Name in fields) ==> len(errorSink.Errors) > old(len(errorSink.Errors))
